@@ -277,6 +277,37 @@ def getters(R, ro):
         R.check(ok, "C08.GETTER", f.qualname, R.site(f),
                 "%s() reads %s.current%s" % (fn, hname, "." + attr if attr else ""),
                 "%s() no longer reads the per-thread scheduler state" % fn)
+        # ... on every call, and from nowhere else: what it returns is the holder's scheduler (or its field), not something a
+        # module-level name remembered from an earlier call (on whichever thread made that call)
+        mod_names = set(t for tg, v_, nd_ in R.repo.module_assigns(sm) for t in tg) - set([hname])
+        stores_g = [n for n in q.scope_nodes(f.node) if isinstance(n, (ast.Assign, ast.AugAssign)) and (q.names_stored(n) & mod_names)
+                    and any(isinstance(g, ast.Global) and (set(g.names) & q.names_stored(n)) for g in ast.walk(f.node))]
+        loads_g = [x for x in q.scope_nodes(f.node) if isinstance(x, ast.Name) and isinstance(x.ctx, ast.Load) and x.id in mod_names
+                   and x.id not in ("_state",) and not x.id[0].isupper() and any(isinstance(g, ast.Global) and x.id in g.names for g in ast.walk(f.node))]
+        R.check(not stores_g and not loads_g, "C08.GETTER", f.qualname + ":uncached", R.site(f, (stores_g or loads_g or [f.node])[0]),
+                "%s() keeps nothing between calls" % fn,
+                "%s() remembers a scheduler in the module-level name `%s`: the name is shared by all threads, so a thread that calls it after another thread "
+                "did gets that thread's scheduler - inside its own tasks get_active_task() is None (the other scheduler is idle)"
+                % (fn, ", ".join(sorted(set([t for n in stores_g for t in q.names_stored(n) & mod_names] + [x.id for x in loads_g])))))
+
+    # ---- the scheduler object holds tasks in its stack only: a field that keeps what was dropped from the stack (for a dump, "for
+    # debugging") retains every task of the ended computation - generators, arguments and all - across later computations
+    sf = ro.stack_field()
+    for m in ro.ts_methods():
+        derived = set()
+        for n in q.scope_nodes(m.node):
+            if isinstance(n, ast.Assign) and len(n.targets) == 1 and isinstance(n.targets[0], ast.Name):
+                if ("self." + sf) in q.src(n.value) or (q.names_loaded(n.value) & derived):
+                    derived.add(n.targets[0].id)
+        for n in q.scope_nodes(m.node):
+            if isinstance(n, ast.Assign):
+                for t in n.targets:
+                    if isinstance(t, ast.Attribute) and q.src(t.value) == "self" and t.attr != sf:
+                        from_stack = ("self." + sf) in q.src(n.value) or bool(q.names_loaded(n.value) & derived)
+                        R.check(not from_stack, "C08.UNWIND", "%s:retains:%s" % (m.qualname, t.attr), R.site(m, n),
+                                "self.%s does not hold entries of the task stack" % t.attr,
+                                "%s stores entries of the task stack in self.%s: the tasks of a computation that has ended (dropped from the stack by an "
+                                "exception or the stack limit) stay referenced by the scheduler across later computations" % (m.qualname, t.attr))
 
 
 def stack_not_aliased(R, ro, rule):
